@@ -91,8 +91,11 @@ func (w *world) nowNs() int64 { return int64(w.mc.Now().Sub(origin)) }
 func (w *world) quiesce() {
 	// a goroutine that never parks only happens on a broken tree: the answers are then flagged
 	// (`vacuum-goroutine-not-parked`) and, after a few such cases, the wait is cut short.
+	if w.stuck {
+		return
+	}
 	limit := 2 * time.Second
-	if w.stuck || stuckCases.Load() >= 3 {
+	if stuckCases.Load() >= 3 {
 		limit = 20 * time.Millisecond
 	}
 	start := time.Now()
@@ -146,7 +149,6 @@ func kvI(w []string, k string) (int64, bool) {
 	}
 	return int64(n), true
 }
-
 
 func execCase(c proto.Case) []string {
 	outs := make([]string, len(c.Ops))
@@ -355,4 +357,3 @@ func runParallel(cases []proto.Case) {
 	close(ch)
 	wg.Wait()
 }
-
